@@ -169,6 +169,9 @@ def gen_cases(rng, tier):
         for _ in range(n_lay):
             cases.append({"kind": "layout", "cls": "layout-" + plat, "plat": plat, "meth": meth, "variant": var,
                           "records": _records(rng, plat)})
+    # ---- the decoded slot usage of every probed method/route (covers the list / dict / row answers too)
+    for u in _PROBE["usage"]:
+        cases.append({"kind": "olayout", "cls": "olayout-" + u["plat"], "plat": u["plat"], "meth": u["meth"], "variant": u["variant"]})
     # ---- dependency of status()/terminal() on their slot
     for plat in PLATS:
         if plat == "windows":
@@ -216,7 +219,7 @@ def _nic_row(case):
     plat = case["plat"]
     if case["fam"] == 2:
         sep = "-" if plat == "windows" else ":"
-        return "(Build_nicrow 2 %s 0 None None)" % G.by(sep.join(case["octets"])), "None", G.lst([G.by(o) for o in case["octets"]])
+        return "(Build_nicrow 2 %s 0 MNone None)" % G.by(sep.join(case["octets"])), "None", G.lst([G.by(o) for o in case["octets"]])
     import ipaddress
     a = str(ipaddress.IPv4Address(case["addrz"]) if case["fam"] == 0 else ipaddress.IPv6Address(case["addrz"]))
     if case["maskz"] is None:
@@ -240,6 +243,8 @@ def coq_term(case):
         st = "(state_of_code %s %s)" % (COQ_PLAT[case["plat"]], _qs(st[5:])) if st.startswith("code:") else COQ_STATE[st]
         return "run_ladder %s %s %s %s %s %s" % (COQ_PLAT[case["plat"]], _qs(case["meth"]), _qs(case["site"]), case["err"],
                                                  st, G.z(case["pid"]))
+    if k == "olayout":
+        return "run_olayout %s %s %s" % (COQ_PLAT[case["plat"]], _qs(case["meth"]), _qs(case["variant"]))
     if k == "sysfields":
         return "run_sysfields %s %s" % (COQ_PLAT[case["plat"]], _qs(case["fn"]))
     if k == "pair":
@@ -270,7 +275,7 @@ def coq_struct(case, raw):
         return {"model": [raw[0], raw[1], raw[2]], "spec": None, "missing": [raw[3], raw[4]]} if isinstance(raw, list) else {"model": raw, "spec": None}
     if k == "ladder":
         return {"model": raw[0], "spec": raw[1], "contract": raw[2]}
-    if k in ("layout", "dep", "nic", "pair", "retry", "wait", "sysfields"):
+    if k in ("layout", "dep", "nic", "pair", "retry", "wait", "sysfields", "olayout"):
         return {"model": raw[0], "spec": raw[1]}
     raise ValueError(k)
 
@@ -379,7 +384,7 @@ def judge(case, coq, impl):
 
 
 def nontrivial(case, coq, impl):
-    return case["kind"] in ("ladder", "layout", "nic", "dep", "pair", "retry", "wait", "sysfields")
+    return case["kind"] in ("ladder", "layout", "nic", "dep", "pair", "retry", "wait", "sysfields", "olayout")
 
 
 # ------------------------------------------------------------------ implementation side (worker)
@@ -428,6 +433,25 @@ def impl_run(case, coq, env):
             return T("NoSuchMethod")
         kind, r = L.run(case["meth"], pid=case["pid"], state=case["state"], site=case["site"], err=case["err"])
         return S.classify(L, kind, r)
+    if k == "olayout":
+        L = _layer(case["plat"], env)
+        if case["meth"] not in P.methods_of(L):
+            return T("NoSuchMethod")
+        u = P.probe_usage(L, case["meth"], case["variant"])
+        if u is None:
+            return T("NoAnswer")
+
+        def src(x):
+            if x[0] == "Slot":
+                return T("Slot", B(x[1]), x[2], x[3])
+            if x[0] == "Const":
+                return T("Const", x[1])
+            if x[0] == "None":
+                return T("SNone")
+            if x[0] == "Fun":
+                return T("Fun", B(x[1]), list(x[2]))
+            return T("Unknown")
+        return [B(u["shape"]), B(u["type"]), [[B(n), src(x)] for n, x in u["fields"]]]
     if k == "sysfields":
         pkg = _fe(case["plat"], env).mod
         cls = {"cpu_times": lambda: pkg._psplatform.scputimes, "virtual_memory": lambda: pkg._psplatform.svmem,
